@@ -600,3 +600,61 @@ func (s *Session) Leftovers(maxWait time.Duration) (Verdict, []G) {
 
 // Done is closed when the Stream call has returned.
 func (r *Running) Done() <-chan struct{} { return r.done }
+
+// libOwned returns the goroutines the library itself started for this
+// session: library frames, no harness frame, not the Stream caller, not given
+// up earlier. They are recognised by structure, not by function name, so that
+// renaming or re-arranging the library's internals does not blind the monitor.
+func (s *Session) libOwned() (owned []G, caller *G) {
+	s.mu.Lock()
+	sg := s.streamGID
+	s.mu.Unlock()
+	for _, g := range LibGoroutines(s.skipSet()) {
+		g := g
+		if g.ID == sg {
+			caller = &g
+			continue
+		}
+		harness, lib := false, false
+		for _, f := range g.Frames {
+			if strings.HasPrefix(f, "verifharness/") && !strings.HasPrefix(f, "verifharness/xport.") { // the transport wrapper is a pass-through
+				harness = true
+			}
+			if strings.HasPrefix(f, "github.com/Breeze0806/gobinlog") {
+				lib = true
+			}
+		}
+		if lib && !harness {
+			owned = append(owned, g)
+		}
+	}
+	return owned, caller
+}
+
+// ReaderState classifies what the library's own goroutine(s) are doing:
+// "network" (blocked reading the connection), "holding" (blocked handing an
+// event over), "running", or "none".
+func (s *Session) ReaderState() string {
+	owned, _ := s.libOwned()
+	st := "none"
+	for _, g := range owned {
+		switch {
+		case g.IOWait():
+			return "network"
+		case strings.HasPrefix(g.State, "select") || strings.HasPrefix(g.State, "chan send"):
+			st = "holding"
+		default:
+			if st == "none" {
+				st = "running"
+			}
+		}
+	}
+	return st
+}
+
+// CallerIdle reports whether the goroutine inside Stream is parked waiting for
+// another goroutine (nothing left for it to consume).
+func (s *Session) CallerIdle() bool {
+	_, c := s.libOwned()
+	return c != nil && c.Parked()
+}
